@@ -42,7 +42,7 @@ CLAIMED = {
    technique="Coq proof over handle_items + scripted-behaviour runs of the real server",
    design="3/C08"),
  "C09": dict(
-   text="Machine-checked proof: C09_session_gate - a failed session-auth callback yields exactly [SessAuth false; Close]; C09_request_gate / C09_not_admitted - a request with credentials and no callback, or rejected credentials, is never admitted: no handler event, no response, at most the failed ReqAuth then Close; C09_context - every handler invocation in any trace carries this connection's session id and session-auth value and (C09_request_gate) the request-auth value computed from THAT request's credentials, nil when it has none (C09_rauth_nil_without_credentials). Tie: sessions with accepted / rejected / absent credentials in every order, with and without callbacks, 1-4 concurrent connections with distinct identities; handlers log what they saw.",
+   text="Machine-checked proof: C09_session_gate - a failed session-auth callback yields exactly [SessAuth false; Close]; C09_request_gate / C09_not_cleared - a request with credentials and no callback, or rejected credentials, is never admitted: no handler event, no response, at most the failed ReqAuth then Close; C09_context - every handler invocation in any trace carries this connection's session id and session-auth value and (C09_request_gate) the request-auth value computed from THAT request's credentials, nil when it has none (C09_rauth_nil_without_credentials). Tie: sessions with accepted / rejected / absent credentials in every order, with and without callbacks, 1-4 concurrent connections with distinct identities; handlers log what they saw.",
    note="Trusted: as C07. Concurrent sessions are modelled as independent functions of their own connection; cross-connection leaks are looked for by the concurrent harness cases.",
    technique="Coq proof over handle_batch/session + scripted authentication runs",
    design="3/C09"),
@@ -87,9 +87,9 @@ CLAIMED = {
    technique="Coq proof by enumeration of a regenerated lockset/happens-before table + Go race detector runs",
    design="3/C12"),
  "C01": dict(
-   text="Machine-checked proof, in progress towards the full message theorem: C01_primitive_roundtrip - every primitive value in range (32/64-bit integers, enumerations, booleans, byte and text strings of ANY length, whole-second date-times, intervals of 0..2^32-1 seconds) decodes from a decoder positioned at the item (tag peeked or not) to itself, consuming exactly the item, whatever follows. PARTIAL: the composite theorem (structures, optional/required fields, sequences, dynamic payloads; CodecRT.v carries the statement's definitions wf / fl_ok) is not yet closed; until then the message-level round trip rests on the tie: for every struct type and every dispatch entry (paired from the specification's tables, not the code's), well-formed values with boundary primitives are encoded, decoded and re-encoded by the implementation and compared with the extracted model's normalised value and bytes.",
-   note="Trusted: Coq kernel; Codec.v model tied by correspondence; normalisation computed by the model. The model's own round trip is checked per case by the driver ('model-roundtrip-fails' would flag a modelling error).",
-   technique="Coq proof (primitive level so far) + implementation/extracted-model round-trip comparison",
+   text="Machine-checked proof (CodecRT.v, mutual induction over the value - no bound on depth, widths, string or sequence lengths): C01_roundtrip - for EVERY type environment satisfying the schema conditions env_ok and EVERY well-formed message value (typed per schema, dynamic payloads agreeing with the dispatch table applied to the discriminating sibling, required sequences non-empty, sizes < 2^32, primitives in range) of a structure type with a proper tag, decoding the bytes Encode produced - with anything after them on the stream - yields the normalised value (pointer payload -> value payload, never-encoded fields cleared), consumes exactly the message and leaves no look-ahead; C01_instance_schema_ok - the schema regenerated from /repo satisfies env_ok (tags proper and pairwise distinct per structure, any-tag field last/optional/skipped, every dynamic field discriminated by an earlier Enumeration/Text String sibling, dispatch targets primitives or known structures), re-checked by vm_compute on every run; C01_request_roundtrip / C01_response_roundtrip are the corollaries for this tree. Not yet proved: 're-encoding the decoded value reproduces the identical bytes' (checked per case by the tie). Tie: for every struct type and dispatch entry (paired from the specification's tables, not the code's) well-formed values with boundary primitives are encoded, decoded and re-encoded by the implementation and compared with the extracted model's normalised value and bytes.",
+   note="Trusted: Coq kernel; Codec.v hand model of encode.go/decode.go/fields.go tied by correspondence (counts in evidence); reflect/bufio/LimitReader modelled; nil and empty sequences are identified in the value universe (the documented normalisation). The hypothesis wf is exercised by the generator's well-formed mode: the driver reports 'model-roundtrip-fails' if the model itself did not round-trip a generated value.",
+   technique="Coq proof (mutual induction over values and schema) of Decode(Encode v) = normalize v + regenerated-schema side conditions by vm_compute + implementation/extracted-model comparison",
    design="3/C01"),
  "C04": dict(
    text="Machine-checked proof, partial: the decoder model decides every input (C04_decides) and accepts every canonical primitive item with the value it denotes (C04_primitive_complete). The soundness / completeness theorems against the relational specification of DESIGN.md are not yet closed; until then accept/reject and the reported value are decided by differential comparison with the extracted decoder model - valid encodings, 14 mutation kinds on every header field (boundary lengths incl. 2^31, 2^32-1, 0xfffffff8..ff), truncation at every offset, deletion / duplication / swap / splice with fixed-up lengths, non-zero padding, spelled-out zero optionals (independent reflection-driven serialiser), random bytes - and 'a truncation of a valid message is accepted' is checked directly.",
@@ -102,9 +102,9 @@ CLAIMED = {
    technique="Coq lemmas on the reader model + measured allocation with planted lengths at every position",
    design="3/C05"),
  "C06": dict(
-   text="Machine-checked proof, partial: a decoded item always moves the stream forward (C06_forward_progress) and a primitive item is consumed exactly, leaving what follows untouched and no look-ahead (C06_item_exact_consumption). The message-level theorem (dec_stream of a concatenation returns the messages then EOF) follows from the round-trip theorem under construction in CodecRT.v. Tie: random sequences of 1-4 valid messages (and damaged tails) through ONE Decoder: compared with the model's stream result; consumed bytes per message on the unbuffered path; every two-way split of the stream, one-byte, random-chunk, data-with-EOF, empty-read and 16-byte-bufio deliveries must give the same sequence.",
-   note="Trusted: Coq kernel; Codec.v model tied by correspondence; bufio / LimitReader / ReadFull are exercised, not modelled (the chunked-reader theorem of DESIGN.md is not yet written).",
-   technique="Coq proof (item level so far) + stream decoding under exhaustive two-way fragmentation",
+   text="Machine-checked proof: C06_stream - for every type environment satisfying env_ok, any number of well-formed messages of any size written back to back: successive Decode calls on ONE decoder state return them one by one, in order, normalised, and then io.EOF exactly at the clean end (induction over the message list on the persistent decoder state); C06_exact_consumption - each successful Decode consumes exactly its message (8 bytes + declared length, C06_message_length) and leaves no look-ahead, whatever follows; C06_instance - the regenerated schema satisfies the hypothesis; C06_forward_progress. Fragmentation is a property of the reader objects (bufio, LimitReader, ReadFull) and is decided on the implementation: random sequences of 1-4 messages through one Decoder, every two-way split of the stream (every offset for streams up to 300 bytes), one-byte, random-chunk, data-with-EOF, empty-read and 16-byte-bufio deliveries, buffered and unbuffered top level, consumed bytes per message on the unbuffered path - all compared with the in-memory result and that with the model.",
+   note="Trusted: Coq kernel; Codec.v model tied by correspondence; the chunked-reader theorem of DESIGN.md (ReadFull/bufio/LimitReader over arbitrary chunkings) is not written: delivery independence rests on the harness.",
+   technique="Coq proof (induction over the message list, on top of the round-trip theorem) + exhaustive two-way fragmentation of real streams",
    design="3/C06"),
 }
 
